@@ -224,7 +224,7 @@ func cmdCheck(args []string) int {
 		}
 		obls = append(obls, os...)
 	}
-	results := v.dischargeAll(obls, timeout, needTwo, 16)
+	results := v.dischargeAll(obls, timeout, needTwo, 6)
 
 	findings, _ := loadFindings(filepath.Join(*verif, "known_findings.txt"))
 	isBounded := func(name string) bool {
